@@ -24,7 +24,7 @@ import processscheduler as ps
 
 from symx import engine, formula, stubs
 from symx.formula import And, Or, Not
-from symx.harness import Shape, Ob, Ctx, run_property, quiet
+from symx.harness import library_failure, confirm_library_failure, Shape, Ob, Ctx, run_property, quiet
 from checks import c11, c14
 
 PROP = "C16"
@@ -451,9 +451,30 @@ def check_tables(sol):
         if got != want:
             problems.append(f"data frame row {got} != reported {want}")
     csv = sol.to_csv()
-    lines = csv.strip().splitlines()
-    if len(lines) != len(sol.tasks) + 1:
-        problems.append("csv has a wrong number of rows")
+    if not isinstance(csv, str):
+        problems.append(f"to_csv() without a file name returned {csv!r} instead of the csv text")
+    else:
+        lines = csv.strip().splitlines()
+        if len(lines) != len(sol.tasks) + 1:
+            problems.append("csv has a wrong number of rows")
+        else:
+            for ln, (n, ts) in zip(lines[1:], sol.tasks.items()):
+                cells = ln.split(",")  # column layout is checked through the data frame (same source)
+                if cells[0] != n:
+                    problems.append(f"csv row {ln!r} does not start with the task name {n}")
+    # csv written to a file must hold the same text
+    tmpd = tempfile.mkdtemp(prefix="c16c_")
+    cfn = os.path.join(tmpd, "s.csv")
+    try:
+        sol.to_csv(cfn)
+        if not os.path.exists(cfn):
+            problems.append("to_csv(file name) did not write the file")
+        elif isinstance(csv, str) and open(cfn).read() != csv:
+            problems.append("to_csv(file name) wrote a different text than to_csv() returns")
+    finally:
+        if os.path.exists(cfn):
+            os.unlink(cfn)
+        os.rmdir(tmpd)
     js = json.loads(sol.to_json())
     for n, ts in sol.tasks.items():
         j = js["tasks"][n]
@@ -516,6 +537,7 @@ def concrete_shape(tag):
     def build(P):
         return Ctx(problem=None)
 
+    @library_failure
     def fn(ctx, path):
         problems = run_concrete(tag)
         if problems:
@@ -599,6 +621,7 @@ def run_concrete(tag):
     return problems
 
 
+@confirm_library_failure
 def replay_concrete(desc):
     import symx.harness as H
 
